@@ -103,9 +103,8 @@ func (c17) Run(c *run.Ctx, phase, idx int) {
 		dup := i%2 == 1
 		i /= 2
 		retain := i%2 == 1
-		cell := fmt.Sprintf("topic=%v alias=%d qos=%d pid=%d | dup=%v retain=%v", topicSet, alias, qos, pid, dup, retain)
 		want := (!topicSet && alias == 0) || ((qos == 1 || qos == 2) && pid == 0) || qos == 3
-		cell = fmt.Sprintf("topic=%v alias-set=%v qos=%d pid-set=%v | alias=%d pid=%d dup=%v retain=%v", topicSet, alias != 0, qos, pid != 0, alias, pid, dup, retain)
+		cell := fmt.Sprintf("topic=%v alias-set=%v qos=%d pid-set=%v | alias=%d pid=%d dup=%v retain=%v", topicSet, alias != 0, qos, pid != 0, alias, pid, dup, retain)
 		for k := 0; k < reps; k++ {
 			topic := ""
 			if topicSet {
